@@ -18,6 +18,12 @@ PkgJson(p) ==
   [id |-> p.id,
    ifaces |-> [n \in {i.name : i \in Range(p.ifaces)} |-> [path |-> D_Path[<<p.id, n>>], kind |-> IfaceKind(p, n, Tag("ex", {}))]],
    worlds |-> [n \in {w.name : w \in Range(p.worlds)} |-> WorldKind(p, WorldOf(p, n))],
+   \* resource identity is beyond conformance by names: the comparison with the reference validator's
+   \* component subtyping is made for resource-free packages (as the property says)
+   res |-> \E i \in Range(p.ifaces) : \E x \in Range(i.items) : x.k = "res",
+   \* C11: the worlds of the package each world's component conforms to
+   conf |-> [n \in {w.name : w \in Range(p.worlds)} |->
+               {b.name : b \in {x \in Range(p.worlds) : ConformsTo(p, WorldOf(p, n), x)}}],
    kf |-> [n \in {w.name : w \in Range(p.worlds)} |->
              IF ExportUsesExport(p, WorldOf(p, n)) THEN "export-uses-export" ELSE ""]]
 
